@@ -252,6 +252,15 @@ pub fn grp_op(op: &str, a: &[&str]) -> R {
                     push_hex(&mut o, &GroupEncoding::to_bytes(&<RistrettoPoint as group::Group>::double(&p)));
                     push_hex(&mut o, &GroupEncoding::to_bytes(&<RistrettoPoint as group::Group>::identity()));
                     push_hex(&mut o, &GroupEncoding::to_bytes(&<RistrettoPoint as group::Group>::generator()));
+                    // CofactorGroup: ristretto255 has prime order, so every representative is torsion-free, is admitted by
+                    // `into_subgroup`, and `clear_cofactor` is the identity map
+                    push_choice(&mut o, <RistrettoPoint as group::cofactor::CofactorGroup>::is_torsion_free(&p));
+                    let sub: Option<RistrettoPoint> = <RistrettoPoint as group::cofactor::CofactorGroup>::into_subgroup(p).into();
+                    match sub {
+                        Some(q) => push_hex(&mut o, &GroupEncoding::to_bytes(&q)),
+                        None => o.push_str(" none"),
+                    }
+                    push_hex(&mut o, &GroupEncoding::to_bytes(&<RistrettoPoint as group::cofactor::CofactorGroup>::clear_cofactor(&p)));
                     Ok(o)
                 }
                 None => Err(Fail::None),
